@@ -278,6 +278,12 @@ type ReplayFile struct {
 
 // RecordFailure writes the failing case; during shrinking it is overwritten, so
 // the file left at the end holds the minimal case rapid re-runs last.
+var failSeq int
+
+// NextFailure makes the next RecordFailure write a new file instead of
+// overwriting (replay tier: one file per failing replay).
+func NextFailure() { failSeq++ }
+
 func RecordFailure(prop, variant string, c any, f *Failure) string {
 	cb, err := json.Marshal(c)
 	if err != nil {
@@ -285,7 +291,7 @@ func RecordFailure(prop, variant string, c any, f *Failure) string {
 	}
 	rf := ReplayFile{Property: prop, Variant: variant, Case: cb, Failure: f}
 	b, _ := json.MarshalIndent(rf, "", " ")
-	p := filepath.Join(outDir(), fmt.Sprintf("fail_%s_%s_%d.json", prop, shard(), os.Getpid()))
+	p := filepath.Join(outDir(), fmt.Sprintf("fail_%s_%s_%d_%d.json", prop, shard(), os.Getpid(), failSeq))
 	_ = os.WriteFile(p, b, 0o644)
 	return p
 }
